@@ -61,9 +61,25 @@ condition is needed) and every source without `<`:
                                ARBITRARY text), the tree holds no inline placeholder, and `RawHtmlPostprocessor`
                                terminates with the `<pre…` entries on every text (`C02_rawHtml_total_entries`).
 
+9. `C02_convertXBig_total_wikilinks` — 5. WITH WIKILINKS, for sources in whose normalised text no `[` is immediately
+                               followed by a blank (c10x's `C10DomainW` clause; decidable): then the label of a
+                               `[[label]]` is never blank (`C02_wikilink_never_blank`), the pattern always returns its
+                               `a` element, the class is kept by the block stage (`C02_blockStageX_wiki`) and by every
+                               pattern, and the potential argument of 6. goes through for EVERY table
+                               (`C02_handleInlineX_total_wiki`, `C02_runX_total_bigfuel_wiki`).
+
+10. **`C02_convertXBig_ok`**  — for the BLOCK-ONLY flag sets (tables, admonition, def_list, sane_lists; nl2br and
+                               wikilinks as well; footnotes, abbr, attr_list, toc, fenced_code off) `convertXBig` RETURNS
+                               A STRING on every `<`-free source of the model's domain: 5./9. (no `oof`), 7. (unescape
+                               does not raise) and the root of the tree is the bare `div` `Markdown.convert` strips
+                               (`C02_block_parser_keeps_root`, `C02_runX_keeps_root`, `C02_treeXBig_rootDiv` — with
+                               admonition too), so `convertXBig ≠ err` (`C02_convertXBig_never_err`).
+
 Only property statements live here; proofs in `MdVerif/Lemmas/C02Big.lean`, `MdVerif/Lemmas/C02Big{Str,Pat,Run,Tree}.lean`
 (these four mirror `Lemmas/AmpFull*.lean` of C05 for the stronger invariant), `MdVerif/Lemmas/C02BigX.lean`,
-`MdVerif/Lemmas/C02BigXAll.lean` and `MdVerif/Lemmas/C02BigN{Pot,Em,Pat,HI,PP,Run}.lean` (`Pot`, `Em`, `Pat`, `PP` are copies of
+`MdVerif/Lemmas/C02BigXAll.lean`, `MdVerif/Lemmas/C02BigF*.lean` (8.), `MdVerif/Lemmas/C02BigW*.lean` (9.),
+`MdVerif/Lemmas/C02BigSh{Block,All}.lean` (10.; `ShBlock` generated by `work/portSh.py` from c05x's `VocabXWFBlock3`) and
+`MdVerif/Lemmas/C02BigN{Pot,Em,Pat,HI,PP,Run}.lean` (`Pot`, `Em`, `Pat`, `PP` are copies of
 `Lemmas/InlineFuel{Pot,Em,Pat,PP}.lean` generated by `work/portN.py` for the extended weight; `HI`, `Run` transcribe
 `InlineFuelHI`, `InlineFuelRun`, `InlineFuelVisit` to the functions of `Model/InlineX.lean`).  Core Lean only.
 -/
@@ -71,6 +87,8 @@ import MdVerif.Lemmas.C02BigTree
 import MdVerif.Lemmas.C02BigXAll
 import MdVerif.Lemmas.C02BigXErr
 import MdVerif.Lemmas.C02BigFAll
+import MdVerif.Lemmas.C02BigWAll
+import MdVerif.Lemmas.C02BigShAll
 
 namespace MdVerif.C02Big
 open Py Block Inline InlineLocal NoCtl Vocab2 MdVerif.C08 MdVerif.C08Src
@@ -445,6 +463,172 @@ example : xFc.wikilinks = false ∧ xFc.fencedCode = true ∧ '&' ∉ srcFc ∧ 
 example : (match convertXBig xFc {} srcFc, convertX xFc {} srcFc with
     | .ok a, .ok b => decide (a = b) && decide (a.length = 390)
     | _, _ => false) = true := by decide +kernel
+
+/-! ### 9. wikilinks -/
+
+open InlineX in
+/-- **In a text in which no `[` is immediately followed by a blank the wikilink pattern never stashes the empty string**:
+    whatever `findX` finds for ANY pattern kind of ANY table is an element (all of whose texts are of the class again, no
+    tail), nothing, or a string of neutral characters that is not empty — the label of `[[label]]` begins with a
+    non-blank, so `label.strip()` is not empty and the pattern returns the `a` element.  The stash is not touched. -/
+theorem C02_wikilink_never_blank (xc : XCfg) (k : PatK) (hk : k ∈ xc.table) (data : Str) (si : Nat) (x : XSt)
+    (r : Option Found) (x' : XSt) (hd : OkW data) (h : findX xc k data si x = some (r, x')) :
+    x'.st.stash = x.st.stash ∧ ∀ f, r = some f → FoundP OkW NW f :=
+  findP_w xc k hk data si x r x' hd h
+
+open InlineX in
+/-- the class is kept by everything the block stage does to a text: `OkW` with the neutral characters `NW` (neither `[`
+    nor blank) is a class of c10x's block-stage framework (`BSep`: cutting, gluing with neutral characters, replacing
+    one character by neutral ones, lower-casing, blank-collapsing and capitalising of ids and titles) -/
+theorem C02_wikilink_class : BlockExt.BSep OkW NW := bsep_w
+
+open InlineX in
+/-- **`__handleInline` over ANY pattern table — wikilink pattern included — terminates** on every text of the class,
+    in every state whose stash is of the class (`StashP`: stashed strings neutral and not empty, stashed elements with
+    texts of the class) -/
+theorem C02_handleInlineX_total_wiki (xc : XCfg) (hc : 0 < xc.table.length) (data : Str) (x : XSt) (ho : OkW data)
+    (hp : StashP OkW NW x.st.stash) : (handleInlineTopX xc data x).isSome = true :=
+  InlineN.handleInlineTopX_totalW xc hc data x ho hp
+
+open InlineX in
+/-- … and does not increase the potential (`C02_handleInlineX_potential` for every table) -/
+theorem C02_handleInlineX_potential_wiki (xc : XCfg) (f : Nat) (t : Str) (pi : Nat) (x : XSt)
+    (d : Str) (x' : XSt) (h : handleInlineX xc f t pi x = some (d, x')) (hs : InlineN.SOK x.st.stash)
+    (hd : Inline.IdsLt x.st.stash.length t) (ho : OkW t) (hp : StashP OkW NW x.st.stash) :
+    InlineN.SOK x'.st.stash ∧ Inline.IdsLt x'.st.stash.length d ∧ x.st.stash <+: x'.st.stash ∧
+      InlineN.nuS x'.st d ≤ InlineN.nuS x.st t :=
+  InlineN.handleInlineX_specW xc f t pi x d x' h hs hd ho hp
+
+open InlineX in
+/-- **`InlineProcessor.run` over ANY pattern table terminates** on every tree without inline placeholders whose texts
+    and tails are of the class: the live loop within `size tree + 1` turns, the stack loop within `Inline.bigFuel tree` -/
+theorem C02_runX_total_bigfuel_wiki (xc : XCfg) (hc : 0 < xc.table.length) (tree : Node)
+    (html : List Str) (fn : Footnotes.State) (h : tree.Forall (fun n => Inline.TopQ (Inline.IdsLt 0) n))
+    (hw : DeepP OkW tree) (g2 : Nat) (hg2 : Inline.size tree < g2) (g : Nat) (hg : Inline.bigFuel tree ≤ g) :
+    (runLoopX xc g2 g tree [[]] { st := { html := html }, fn := fn }).isSome = true :=
+  InlineN.runX_total_bigW xc hc tree { st := { html := html }, fn := fn } rfl h hw g2 hg2 g hg
+
+/-- **the block stage keeps the class** (every flag set, fenced_code included): when in the normalised source no `[` is
+    immediately followed by a blank (`WikiSrc`, decidable; c10x's `C10DomainW` clause), the same holds for every text
+    and tail of the tree handed to the inline stage -/
+theorem C02_blockStageX_wiki (x : Exts) (cfg : Pipeline.Cfg) (src : Str) (hs : WikiSrc cfg src) (root : Node)
+    (log : Block.Refs) (stash : List Str) (h : blockStageX x cfg src = .ok (root, log, stash)) :
+    InlineX.DeepP InlineX.OkW root :=
+  blockStageX_okw hs h
+
+/-- **C02, termination of the extension pipeline on the sufficient fuel, WITH WIKILINKS**: every flag set without
+    fenced_code (tables, admonition, def_list, abbr, sane_lists, attr_list, toc, footnotes, nl2br, WIKILINKS on or off),
+    every configuration (`tab_length ≥ 1` when admonition is on), every source in whose normalised text no `[` is
+    immediately followed by a blank: `convertXBig` never answers `oof`.  (Without the hypothesis `[[ ]]` stashes the
+    empty string — the example in section 6 — and the potential argument does not apply; no run-away is known.) -/
+theorem C02_convertXBig_total_wikilinks (x : Exts) (cfg : Pipeline.Cfg) (src : Str) (hs : WikiSrc cfg src)
+    (hf : x.fencedCode = false) (htab : x.admonition = true → 0 < cfg.tab) : convertXBig x cfg src ≠ .oof :=
+  convertXBig_ne_oof_wiki src hs hf htab
+
+/-- everything on but fenced_code; wiki links with a blank INSIDE the label, with `_` and `-`, inside emphasis, inside
+    an admonition and inside a footnote; `[[]]`, `[[!]]` and an unclosed `[[z` that are no links -/
+def xW : Exts := { xFn with wikilinks := true }
+def srcW : Str :=
+  ("# T\n\nsee [[Wiki Page]] and [[a_b-c]] *x [[y]]*\n\n[l](u) [^1] [[]] [[!]] [x] [[z\n\n!!! note\n    in [[Note]]\n\n" ++
+   "[^1]: foot [[F N]]\n").toList
+
+example : WikiSrc {} srcW ∧ xW.wikilinks = true ∧ xW.fencedCode = false := by decide +kernel
+
+/-- 643 characters, the output of the implementation -/
+example : (match convertXBig xW {} srcW, convertX xW {} srcW with
+    | .ok a, .ok b => decide (a = b) && decide (a.length = 643)
+    | _, _ => false) = true := by decide +kernel
+
+/-- the hypothesis is about `[` + blank only: a blank label is what it excludes -/
+example : ¬ WikiSrc {} "[[ ]]".toList ∧ WikiSrc {} "[[a ]] [x]( y) ] [".toList := by decide +kernel
+
+/-! ### 10. the block-only flag sets: `convert` returns a string -/
+
+/-- **The extended block parser keeps the tag and the attributes of the element it works into** — every combination of
+    admonition, def_list, footnotes, abbr, sane_lists and tables, any `tab_length`, any text: the root of the parsed
+    document is the bare `div` it was given.  (With ADMONITION too, where the tree below the root need not be well
+    formed — c05x's `C05X_admonition_fills_hr`; `Lemmas/C02BigShBlock.lean` is c05x's induction over the dispatcher
+    redone for tag and attributes.) -/
+theorem C02_block_parser_keeps_root (tables : Bool) (xc : BlockExt.XCfg) (tab : Nat) (text : Str) (root : Node)
+    (log : Block.Refs) (h : BlockExt.parseDocumentXT tables xc tab text = some (root, log)) :
+    root.tag = .name "div".toList ∧ root.attrs = [] :=
+  C02BigSh.parseDocumentXT_shell h
+
+/-- the inline tree processor over any pattern table, on any fuel, keeps the tag and the attributes of the root -/
+theorem C02_runX_keeps_root (xc : InlineX.XCfg) (g2 g : Nat) (root : Node) (stack : List Inline.Path) (x : InlineX.XSt)
+    (root' : Node) (x' : InlineX.XSt) (h : InlineX.runLoopX xc g2 g root stack x = some (root', x')) :
+    root'.tag = root.tag ∧ root'.attrs = root.attrs :=
+  C02BigSh.runLoopX_shell xc g2 g root stack x root' x' h
+
+/-- **The tree handed to the serializer has the bare wrapper `div` as its root** (`C14X.rootDiv`), for the flag sets
+    without footnotes, abbr, attr_list and toc — admonition, tables, def_list, sane_lists, nl2br, wikilinks, fenced_code
+    on or off — and on the sufficient fuel (`treeXBig`; c05x's `C05X_rootDiv` is the statement for `treeX` with the
+    model's fuel, without admonition). -/
+theorem C02_treeXBig_rootDiv (x : Exts) (hfn : x.footnotes = false) (hab : x.abbr = false) (hal : x.attrList = false)
+    (htoc : x.toc = false) (cfg : Pipeline.Cfg) (src : Str) (u : Node) (html : List Str)
+    (h : treeXBig x cfg src = .ok u html) : C14X.rootDiv u = true :=
+  treeXBig_rootDiv hfn hab hal htoc h
+
+/-- **`Markdown.convert` never raises** for the flag sets of `C02_convertXBig_err_only_strip`: the strip of the
+    wrapper `<div>` cannot fail, `UnescapeTreeprocessor` meets complete escape tokens only.  Every configuration, every
+    source. -/
+theorem C02_convertXBig_never_err (x : Exts) (hf : x.fencedCode = false) (hfn : x.footnotes = false)
+    (hab : x.abbr = false) (hal : x.attrList = false) (htoc : x.toc = false) (cfg : Pipeline.Cfg) (src : Str) :
+    convertXBig x cfg src ≠ .err :=
+  convertXBig_ne_err hf hfn hab hal htoc cfg src
+
+/-- **C02 for the block-only flag sets — `convert` returns a string**: tables, admonition, def_list, sane_lists, nl2br
+    and wikilinks on or off (the rest off); every configuration (`tab_length ≥ 1` when admonition is on); every
+    `<`-free source of the model's domain (with admonition: no `!!!` followed by a non-ASCII character, the one `ood`
+    answer of these flag sets) in whose normalised text, when wikilinks is on, no `[` is immediately followed by a
+    blank.  `convertXBig x cfg src = ok out`: no loop runs away, nothing raises. -/
+theorem C02_convertXBig_ok (x : Exts) (hf : x.fencedCode = false) (hfn : x.footnotes = false) (hab : x.abbr = false)
+    (hal : x.attrList = false) (htoc : x.toc = false) (cfg : Pipeline.Cfg) (src : Str) (hlt : '<' ∉ src)
+    (hadm : x.admonition = true → 0 < cfg.tab ∧ admNonAscii (Normalize.normalize cfg.tab src) = false)
+    (hw : x.wikilinks = true → WikiSrc cfg src) : ∃ out, convertXBig x cfg src = .ok out :=
+  convertXBig_ok hf hfn hab hal htoc cfg src hlt hadm hw
+
+/-- … so on these sources the model with its own fuel answers `ok` — the same string — or `oof`, and `oof` only if the
+    stack loop of `runX` runs out of the linear fuel `16·size + 64` (the open gap `C02_run_total_full`) -/
+theorem C02_convertX_ok_or_stack_fuel (x : Exts) (hf : x.fencedCode = false) (hfn : x.footnotes = false)
+    (hab : x.abbr = false) (hal : x.attrList = false) (htoc : x.toc = false) (cfg : Pipeline.Cfg) (src : Str)
+    (hlt : '<' ∉ src)
+    (hadm : x.admonition = true → 0 < cfg.tab ∧ admNonAscii (Normalize.normalize cfg.tab src) = false)
+    (hw : x.wikilinks = true → WikiSrc cfg src) :
+    (∃ out, convertX x cfg src = .ok out ∧ convertXBig x cfg src = .ok out) ∨ convertX x cfg src = .oof := by
+  by_cases h : convertX x cfg src = .oof
+  · exact .inr h
+  · left
+    obtain ⟨out, ho⟩ := convertXBig_ok hf hfn hab hal htoc cfg src hlt hadm hw
+    refine ⟨out, ?_, ho⟩
+    rw [← convertXBig_of_convertX_ne_oof_all h, ho]
+
+/-- all six on; an admonition with a title holding emphasis and c05x's witness below it (a list that ends with an `hr`,
+    then a block indented deep enough to go INTO the `hr`), a definition list with a wiki link and a line feed, a table
+    with an escaped `*` and a code span holding `|`, a sane list, a numeric reference above 0x10FFFF, an STX in the
+    source -/
+def xBlk : Exts :=
+  { tables := true, admonition := true, defList := true, saneLists := true, nl2br := true, wikilinks := true }
+def srcBlk : Str :=
+  ("!!! note \"T *t*\"\n    - - x\n        - y\n        ***\n\n            text\n\nterm\n:   d [[W p]]\n    e\n\n" ++
+   "|h|k|\n|-|:-|\n|\\*c|`|`|\n\n1. a\n* b\n\n&#1114112; \\\x02 *x\ny*\n").toList
+
+/-- the hypotheses of `C02_convertXBig_ok` hold for it -/
+example : xBlk.fencedCode = false ∧ xBlk.footnotes = false ∧ xBlk.abbr = false ∧ xBlk.attrList = false ∧
+    xBlk.toc = false ∧ '<' ∉ srcBlk ∧ 0 < ({} : Pipeline.Cfg).tab ∧
+    admNonAscii (Normalize.normalize ({} : Pipeline.Cfg).tab srcBlk) = false ∧ WikiSrc {} srcBlk := by decide +kernel
+
+/-- 482 characters in xhtml, 487 in html (the paragraph in the `hr` shows there): the outputs of the implementation -/
+example : (match convertXBig xBlk {} srcBlk, convertX xBlk {} srcBlk with
+    | .ok a, .ok b => decide (a = b) && decide (a.length = 482)
+    | _, _ => false) = true ∧
+    (match convertXBig xBlk { fmt := .html } srcBlk with
+    | .ok a => decide (a.length = 487)
+    | _ => false) = true := by
+  refine ⟨by decide +kernel, by decide +kernel⟩
+
+/-- the `ood` answer excluded by `hadm` -/
+example : convertXBig { admonition := true } {} "!!! é".toList = .ood := by decide +kernel
 
 end Ext
 
